@@ -48,7 +48,7 @@ def gen_opts(rng, writer):
 
 def cases(ctx):
     rng = ctx.rng('c07')
-    for i in range(ctx.budget(1500, 100000)):
+    for i in range(ctx.budget(5000, 150000)):
         writer = DFXP_WRITERS[i % 3] if rng.random() < 0.6 else 'DFXPWriter'
         r = rng.random()
         tag = f'D{ctx.shard}.{i}'
